@@ -35,7 +35,7 @@ ALL_FEATURES = {
     "array_pop", "early_return", "shadowing", "match_return", "else_if", "assert_stmt", "array_pass", "struct_pass",
     "string_escapes", "effectful_logic", "continue_in_for", "print_enum", "min_max", "array_slice",
     "array_struct", "float_arith", "deep_expr", "array_alias", "str_substring", "char_at", "global_shadow",
-    "unused_results", "long_strings", "self_compare", "tuple_pass", "effectful_args", "shadow_type_change", "out_of_scope_reference", "array_float", "struct_array_field", "tuple_nested", "fn_returning_composite", "print_float",
+    "unused_results", "long_strings", "self_compare", "tuple_pass", "effectful_args", "shadow_type_change", "out_of_scope_reference", "array_float", "struct_array_field", "tuple_nested", "fn_returning_composite", "print_float", "loop_nest",
 }
 
 
@@ -419,6 +419,15 @@ def gen_expr(g, sc, t, d):
     vs = sc.of_type(t)
     if vs and g.chance(1, 2) and not (k == "array" and not g.has("array_alias")):
         return ("var", g.pick(vs))
+    if k == "array" and vs and g.has("array_slice") and g.chance(1, 3):
+        # a copy of a range of an existing array: start / length inside the known minimum length, or the whole array
+        src = g.pick(vs)
+        m = sc.lookup(src)[2].get("minlen", 0)
+        g.use("array_slice")
+        if m > 0 and g.chance(3, 4):
+            st_ = g.i(0, m)
+            return ("bi", "array_slice", [("var", src), ("int", st_), ("int", g.i(0, m - st_))])
+        return ("bi", "array_slice", [("var", src), ("int", 0), ("bi", "array_length", [("var", src)])])
     if k == "array":
         # fresh arrays only (no aliasing unless the feature is on)
         n = g.i(0, 5)
@@ -1003,6 +1012,42 @@ def gen_array_mut(g, sc, cx, out):
     out.append(("println", ("bi", "array_length", [("var", n)])))
 
 
+def gen_slice_idiom(g, sc, cx, out):
+    """A slice that starts inside an array of (preferably heap) values and outlives its source: the source is replaced
+    or grows afterwards and the slice is read again."""
+    ets = ["int"]
+    if g.has("array_string") and g.has("strings"):
+        ets += ["string", "string", "string"]
+    if g.has("array_bool"):
+        ets.append("bool")
+    if g.has("array_float") and g.has("floats"):
+        ets.append("float")
+    et = g.pick(ets)
+    n = g.i(2, 5)
+    a = g.fresh()
+    out.append(("let", a, t_array(et), ("arr", et, gen_args(g, sc, [et] * n, 1)), True))
+    sc.vars[a] = (t_array(et), True, {"minlen": n})
+    st_ = g.i(1, n - 1)
+    ln = g.i(1, n - st_)
+    b = g.fresh()
+    out.append(("let", b, t_array(et), ("bi", "array_slice", [("var", a), ("int", st_), ("int", ln)]), False))
+    sc.vars[b] = (t_array(et), False, {"minlen": ln})
+    show = lambda: [("println", ("bi", "at", [("var", b), ("int", g.i(0, ln - 1))]))] if printable(et) else []
+    out += show()
+    how = g.i(0, 2)
+    if how == 0:
+        out.append(("set", a, ("arr", et, gen_args(g, sc, [et] * g.i(0, 2), 1))))      # the source array dies
+        sc.vars[a][2]["minlen"] = 0
+    elif how == 1:
+        out.append(("set", a, ("bi", "array_push", [("var", a), gen_expr(g, sc, et, 1)])))
+    else:
+        out.append(("expr", ("bi", "array_set", [("var", a), ("int", st_), gen_expr(g, sc, et, 1)])))
+    out += show()
+    out.append(("println", ("bi", "array_length", [("var", b)])))
+    out.append(("println", ("bi", "array_length", [("var", a)])))
+    g.use("slice_idiom_" + et)
+
+
 def child_scope(sc):
     c = Scope(sc)
     return c
@@ -1055,6 +1100,54 @@ def gen_for(g, sc, cx, out, budget):
     g.use("for")
 
 
+def gen_loop_nest(g, sc, cx, out):
+    """An inner loop with an exit that is (usually) taken at a known iteration, nested in an outer loop or block whose
+    remaining statements show whether the exit ended exactly the inner loop: accumulator updates and prints after the
+    inner loop, after the outer construct, and a second pass of the outer loop."""
+    acc = g.fresh("v")
+    out.append(("let", acc, "int", ("int", 0), True))
+    sc.vars[acc] = ("int", True, {})
+    nb = g.i(1, 4)
+    at = g.i(0, nb + 1)                    # == nb + 1 or nb: never reached for some draws
+    inner_kind = g.pick(["for", "for", "while"])
+    exits = ["break"]
+    if g.has("continue") and (inner_kind == "while" or g.gate("continue_in_for")):
+        exits.append("continue")
+    if g.has("early_return") and cx.ret == "int" and cx.depth > 0:
+        exits.append("return")
+    ex = g.pick(exits)
+    exit_stmt = ("return", ("bin", "+", ("var", acc), ("int", 7000), g.style())) if ex == "return" else (ex,)
+    bump = lambda n: ("set", acc, ("bin", "+", ("var", acc), ("int", n), g.style()))
+    if inner_kind == "for":
+        iv = g.fresh("i")
+        ibody = [("if", maybe_bare(g, ("bin", "==", ("var", iv), ("int", at), g.style())), [exit_stmt], None), bump(1)]
+        if g.b():
+            ibody.append(("println", ("var", iv)))
+        inner = [("for", iv, ("int", 0), ("int", nb), ibody)]
+    else:
+        wv = g.fresh("w")
+        ibody = [("set", wv, ("bin", "+", ("var", wv), ("int", 1), g.style())),
+                 ("if", maybe_bare(g, ("bin", "==", ("var", wv), ("int", at), g.style())), [exit_stmt], None), bump(1)]
+        inner = [("let", wv, "int", ("int", 0), True), ("while", ("bin", "<", ("var", wv), ("int", nb), g.style()), ibody)]
+    after = [bump(100), ("println", ("var", acc))]
+    okind = g.pick(["while", "for", "if", "else"])
+    na = g.i(1, 3)
+    if okind == "while":
+        ov = g.fresh("w")
+        out.append(("let", ov, "int", ("int", 0), True))
+        sc.vars[ov] = ("int", True, {})
+        out.append(("while", ("bin", "<", ("var", ov), ("int", na), g.style()),
+                    [("set", ov, ("bin", "+", ("var", ov), ("int", 1), g.style()))] + inner + after))
+    elif okind == "for":
+        out.append(("for", g.fresh("i"), ("int", 0), ("int", na), inner + after))
+    elif okind == "if":
+        out.append(("if", ("bin", "==", ("int", 1), ("int", 1), g.style()), inner + after, None))
+    else:
+        out.append(("if", ("bin", "==", ("int", 1), ("int", 2), g.style()), [("println", ("int", -1))], inner + after))
+    out.append(("println", ("var", acc)))
+    g.use("loop_nest_%s_in_%s_%s" % (inner_kind, okind, ex))
+
+
 def gen_match(g, sc, cx, out, budget):
     us = [(n, v) for n, v in sc.all_vars().items() if isinstance(v[0], tuple) and v[0][0] == "union"]
     if not us:
@@ -1085,8 +1178,18 @@ def gen_block(g, sc, cx, budget):
     out = []
     n = g.i(1, max(1, min(6, budget)))
     for _ in range(n):
-        k = g.i(0, 21)
-        if k <= 4:
+        k = g.i(0, 24)
+        if k == 24:
+            if g.has("array_slice") and g.has("arrays") and g.has("array_mut"):
+                gen_slice_idiom(g, sc, cx, out)
+            else:
+                gen_let(g, sc, cx, out)
+        elif k >= 22:
+            if g.has("loop_nest") and g.has("for") and g.has("while") and g.has("break") and cx.depth < 2 and cx.loop_depth < 1 and budget >= 2:
+                gen_loop_nest(g, sc, cx, out)
+            else:
+                gen_let(g, sc, cx, out)
+        elif k <= 4:
             gen_let(g, sc, cx, out)
         elif k <= 6:
             gen_set(g, sc, cx, out)
